@@ -205,6 +205,10 @@ StepCat(x, c, cat) ==
                      \cup Tag({Call(x, "extension", <<l>>) : l \in {Lit("'http://example.org/ext/a'", S(UrlA)), Lit("'http://hl7.org/fhir/StructureDefinition/patient-birthTime'", S(UrlBirth)), Lit("'x'", S(<<120>>))}}, "C10")
        [] cat = 3 -> Tag({Call(x, g, <<p>>) : g \in {"exists", "all"}, p \in Lambda1(fs)}, "C10")
                      \cup Tag({Call(x, g, <<p>>) : g \in {"where", "select"}, p \in Lambda1(fs)}, OrEmpty(c, "C10"))
+                     \* a projection or filter feeding a positional function directly (first item may project to nothing)
+                     \cup Tag({Call(Call(x, g, <<p>>), h, <<>>) : g \in {"where", "select"}, h \in {"first", "last", "tail", "count"},
+                                  p \in {Fld(This, f) : f \in fs} \cup {Call(Fld(This, f), "exists", <<>>) : f \in fs}}, OrEmpty(c, "C10"))
+                     \cup Tag({Ix(Call(x, "select", <<Fld(This, f)>>), 0) : f \in fs} \cup {Call(Call(x, "select", <<Fld(This, f)>>), "take", <<Lit("1", I(1))>>) : f \in fs}, OrEmpty(c, "C10"))
        [] cat = 4 -> Tag({Call(x, g, <<>>) : g \in {"not", "allTrue", "anyTrue", "allFalse", "anyFalse"}}, "C06")
                      \cup Tag({Bin(op, x, l) : op \in {"and", "or", "xor", "implies"}, l \in BoolLits \cup {LitE} \cup ElemOperands}, "C06")
                      \cup Tag({Bin(op, l, x) : op \in {"and", "or", "xor", "implies"}, l \in BoolLits \cup {LitE} \cup ElemOperands}, "C06")
